@@ -127,9 +127,9 @@ def oracle_a_job(job):
     for s in job["inputs"]:
         del fired[:]
         try:
-            o1 = common.with_alarm(2, _outcome, pp, r1, s)
+            o1 = common.with_alarm_retry(2, _outcome, pp, r1, s)
             f = list(fired)
-            o2 = common.with_alarm(2, _outcome, pp, r2, s)
+            o2 = common.with_alarm_retry(2, _outcome, pp, r2, s)
         except common.CaseTimeout:
             continue
         n += 1
@@ -187,8 +187,8 @@ def oracle_b_job(job):
     pp.ParserElement.disable_memoization()
     for s in job["inputs"]:
         try:
-            o1 = common.with_alarm(2, _outcome, pp, r1, s)
-            o2 = common.with_alarm(2, _outcome, pp, r2, s)
+            o1 = common.with_alarm_retry(2, _outcome, pp, r1, s)
+            o2 = common.with_alarm_retry(2, _outcome, pp, r2, s)
         except common.CaseTimeout:
             continue
         n += 1
@@ -331,7 +331,7 @@ def ref_job(job):
             except pp.ParseBaseException:
                 return ["fail"]
         try:
-            got = common.with_alarm(2.0, real)
+            got = common.with_alarm_retry(2.0, real)
         except common.CaseTimeout:
             got = ["hang"]
         except RecursionError:
